@@ -1,6 +1,5 @@
 package vsim
 
-
 import (
 	"crypto/rand"
 	"crypto/sha256"
